@@ -156,6 +156,7 @@ type bridgeGhost struct {
 	Xfers     map[string]*xfer    // chain/id -> transfer registry
 	ExecUnobs []extBatch
 	BatchSeen map[string]bool // chain|token|nonce ever created
+	BatchSeq  map[string]uint64 // ... and the outgoing sequence it was created with (a batch is identified by both)
 	LastBatchNonce map[string]uint64
 	LastSeq   map[string]uint64
 	Pending   []pendingEvent // events voted in the open block, applied at its EndBlock
@@ -247,7 +248,7 @@ func cloneS(m map[string]string) map[string]string {
 
 func (g *bridgeGhost) Clone() Ghost {
 	n := &bridgeGhost{EvNonce: cloneU(g.EvNonce), ExtHeight: cloneU(g.ExtHeight), Custody: cloneBig(g.Custody), LastExec: cloneU(g.LastExec),
-		Xfers: map[string]*xfer{}, ExecUnobs: append([]extBatch(nil), g.ExecUnobs...), BatchSeen: cloneB(g.BatchSeen),
+		Xfers: map[string]*xfer{}, ExecUnobs: append([]extBatch(nil), g.ExecUnobs...), BatchSeen: cloneB(g.BatchSeen), BatchSeq: cloneU(g.BatchSeq),
 		LastBatchNonce: cloneU(g.LastBatchNonce), LastSeq: cloneU(g.LastSeq), Pending: append([]pendingEvent(nil), g.Pending...),
 		Debt: cloneS(g.Debt), TimedOutOK: cloneB(g.TimedOutOK), Withdrawn: cloneW(g.Withdrawn), ObsHeight: cloneU(g.ObsHeight), FakeAt: cloneU(g.FakeAt)}
 	for k, v := range g.Xfers {
@@ -317,7 +318,7 @@ func (g *bridgeGhost) Canon() string {
 
 func (b *Bridge) NewGhost(in *hub.Instance) Ghost {
 	g := &bridgeGhost{EvNonce: map[string]uint64{}, ExtHeight: map[string]uint64{}, Custody: map[string]*big.Int{}, LastExec: map[string]uint64{},
-		Xfers: map[string]*xfer{}, BatchSeen: map[string]bool{}, LastBatchNonce: map[string]uint64{}, LastSeq: map[string]uint64{},
+		Xfers: map[string]*xfer{}, BatchSeen: map[string]bool{}, BatchSeq: map[string]uint64{}, LastBatchNonce: map[string]uint64{}, LastSeq: map[string]uint64{},
 		Debt: map[string]string{}, TimedOutOK: map[string]bool{}, Withdrawn: map[string]*wbatch{}, ObsHeight: map[string]uint64{}, FakeAt: map[string]uint64{}}
 	for _, c := range AllExtChains {
 		g.ExtHeight[c] = 1000
@@ -1009,7 +1010,20 @@ func init() {
 		ech.Deadline = ec.Deadline / 3
 		return []MultiCase{{Name: "bridge histories, oracle prices from genesis", Spec: NewBridge(cfg), Cfg: ec}, {Name: "holders adopted, no prices", Spec: NewBridge(ho), Cfg: ech}}, bridgeAssumptions(cfg)
 	}))
-	for _, p := range []string{"C04", "C10", "C12"} {
+	Register("C10", MultiRunner(func(tier string) ([]MultiCase, []string) {
+		cfg, ec := bridgeCfgFor("C10", tier)
+		// batches that time out and are rebuilt: nonces must stay unique and gap-free across cancellations
+		to := cfg
+		to.Ops = opsSet("Next", "Send", "ReqBatch", "Deposit", "ExtAdvance")
+		to.Fees = []int64{7}
+		to.SendChains = []string{"ethereum"}
+		to.DepChains = []string{"ethereum"}
+		to.Seeds = [][]engine.Op{append(append([]engine.Op{}, seedObserved...), engine.OpN("Send", "ethereum", "hub", 0, 0, 0), engine.OpN("ReqBatch", "ethereum", "hub"))}
+		ect := ec
+		ect.Deadline = ec.Deadline / 2
+		return []MultiCase{{Name: "pools and permissionless requests", Spec: NewBridge(cfg), Cfg: ec}, {Name: "batches timing out and being rebuilt", Spec: NewBridge(to), Cfg: ect}}, bridgeAssumptions(cfg)
+	}))
+	for _, p := range []string{"C04", "C12"} {
 		prop := p
 		Register(prop, BFSRunner(func(tier string) (Spec, engine.Config, []string) {
 			cfg, ec := bridgeCfgFor(prop, tier)
